@@ -2395,6 +2395,9 @@ impl TransactionBuilder {
                 .append(&mut voting_proposal_builder.get_plutus_witnesses().0)
         }
 
+        // Only the languages of the witnesses that are hashed (and emitted) are in use: an inputs builder may still
+        // have a witness registered that it no longer returns (an input added again without its script).
+        used_langs.retain(|lang| plutus_witnesses.0.iter().any(|w| &w.script.language() == lang));
         let (_scripts, mut datums, redeemers) = plutus_witnesses.collect();
         for lang in used_langs {
             match cost_models.get(&lang) {
